@@ -110,6 +110,8 @@ func runC16(cx *Ctx, r *Report) {
 	cx.paramIndexing(r)
 	// ---------------- (6) fee − tax cannot go negative
 	cx.feeTaxBounded(r)
+	// ---------------- (7) a failed parameter lookup is not used as if it had succeeded
+	cx.paramLookupErrors(r)
 	r.requireCount("authority-guard", 5)
 	r.requireCount("validated-writer", 5)
 	cx.rateBounds(r)
@@ -1057,5 +1059,106 @@ func (cx *Ctx) feeTaxBounded(r *Report) {
 	}
 	if n < 3 {
 		r.toolErr("only %d fee−tax burns found (coinswap, farm, token confirmed)", n)
+	}
+}
+
+// paramLookupErrors: a lookup that reads the module's parameters and reports failure
+// through an error result (an asset / a limit / a denom that the current parameter set
+// no longer lists) returns the zero value of its record on failure, whose math.Int /
+// LegacyDec / Coin fields are nil. A caller on a message, block or callback path that
+// discards the error and goes on to use the record turns an accepted parameter change
+// (an asset removed from the list) into a nil-amount panic in a handler.
+func (cx *Ctx) paramLookupErrors(r *Report) {
+	reach := cx.Reachable(cx.entryFns(cx.EntriesOf("msg", "abci", "callback", "hook", "ante")), nil)
+	hasNilable := func(t types.Type) bool {
+		var rec func(t types.Type, d int) bool
+		rec = func(t types.Type, d int) bool {
+			if d > 4 {
+				return false
+			}
+			if numericParamType(t) {
+				return true
+			}
+			switch u := t.Underlying().(type) {
+			case *types.Struct:
+				if namedOf(t) != nil && namedOf(t).Obj().Pkg() != nil && !strings.HasPrefix(namedOf(t).Obj().Pkg().Path(), modPrefix) {
+					return false
+				}
+				for i := 0; i < u.NumFields(); i++ {
+					if rec(u.Field(i).Type(), d+1) {
+						return true
+					}
+				}
+			case *types.Pointer:
+				return rec(u.Elem(), d+1)
+			}
+			return false
+		}
+		return rec(t, 0)
+	}
+	readsParams := map[*ssa.Function]bool{}
+	reads := func(g *ssa.Function) bool {
+		if v, ok := readsParams[g]; ok {
+			return v
+		}
+		res := false
+		for _, h := range cx.Reachable([]*ssa.Function{g}, nil).Order {
+			if h.Blocks == nil || !isIrismodFunc(h) {
+				continue
+			}
+			for _, p := range cx.primsOf(h) {
+				if p.Kind == "store.get" {
+					for _, px := range p.Prefix {
+						if isParamsPrefix(px) {
+							res = true
+						}
+					}
+				}
+			}
+		}
+		readsParams[g] = res
+		return res
+	}
+	n := 0
+	for _, f := range reach.Order {
+		if f.Blocks == nil || !isConsensusCode(cx, f) {
+			continue
+		}
+		for _, b := range f.Blocks {
+			for _, ins := range b.Instrs {
+				c, ok := ins.(*ssa.Call)
+				if !ok || c.Common().IsInvoke() {
+					continue
+				}
+				g := c.Common().StaticCallee()
+				if g == nil || g.Blocks == nil || !isIrismodFunc(g) || !lastResultIsError(g) {
+					continue
+				}
+				res := g.Signature.Results()
+				if res.Len() < 2 || !hasNilable(res.At(0).Type()) || !reads(g) {
+					continue
+				}
+				n++
+				errUsed, valUsed := false, false
+				if c.Referrers() != nil {
+					for _, ref := range *c.Referrers() {
+						if ex, ok := ref.(*ssa.Extract); ok {
+							used := ex.Referrers() != nil && len(*ex.Referrers()) > 0
+							if ex.Index == res.Len()-1 && used {
+								errUsed = true
+							}
+							if ex.Index == 0 && used {
+								valUsed = true
+							}
+						}
+					}
+				}
+				key := moduleOf(funcPkgPath(f)) + "|" + callNameOfFn(g) + "|" + anchorOf(cx, f)
+				r.check(errUsed || !valUsed, "param-lookup-error-checked", key, cx.P.Pos(c.Pos()), "the error of the parameter lookup "+shortFn(g)+" is inspected where its result is used", "in "+shortFn(f)+" the error of "+shortFn(g)+" (a lookup in the module's parameters) is discarded and the returned record is used: when the current parameters no longer list the entry the record is the zero value with nil amounts, and the handler panics (amount is nil) instead of rejecting - reachable through an accepted parameter change; "+reach.Path(f))
+			}
+		}
+	}
+	if n < 3 {
+		r.toolErr("only %d parameter lookups with an error result found on handler paths (≥3 confirmed: htlc GetAsset / GetSupplyLimit / …)", n)
 	}
 }
